@@ -390,6 +390,35 @@ func c20DBLevel(r *Run) {
 			in.Discard()
 		}
 	}
+	// structures the index mode does not support: writing them works, the replay at Open may
+	// refuse the directory but must not panic
+	for _, mode := range []int{core.K, core.S} {
+		for _, c := range []core.Call{
+			{F: "ZAdd", B: "z", K: "a", X: 1, V: "v"}, {F: "SAdd", B: "s", K: "k", Vs: []string{"m"}}, {F: "RPush", B: "l", K: "k", Vs: []string{"a"}},
+		} {
+			in := core.OpenInst(core.Cfg{Mode: mode, Seg: 100})
+			name := fmt.Sprintf("%s;Close;Open[%s]", c.F, modeName(mode))
+			r1 := in.Apply(up(c))
+			r2 := in.Apply(upIgn(core.Call{F: "ZRem", B: "z", K: "a"}, core.Call{F: "ZPopMax", B: "z"}))
+			if in.Poisoned != "" {
+				// a panic inside Commit leaves the database lock held: report it, do not touch the instance again
+				report(name+":commit", r1.Panic+r2.Panic)
+				in.Discard()
+				continue
+			}
+			pan := try(name, func() {
+				if in.DB != nil {
+					in.DB.Close()
+				}
+				in.DB = nil
+				if db, err := nutsdb.Open(in.Cfg.Options(in.Dir)); err == nil {
+					db.Close()
+				}
+			})
+			report(name, pan)
+			in.Discard()
+		}
+	}
 	r.Stats.Evals += n
 	r.Stats.Extra["db_level_cases"] = n
 }
